@@ -181,15 +181,7 @@ func parseLine(p *parser) parseStateFn {
 		p.currentLine.typ = lineEmpty
 		return parseEmptyLines
 	case tokComment:
-		if strings.HasPrefix(p.nextToken.val, ";name") {
-			p.metadata.Name = strings.TrimSpace(p.nextToken.val[5:])
-		} else if strings.HasPrefix(p.nextToken.val, ";author") {
-			p.metadata.Author = strings.TrimSpace(p.nextToken.val[7:])
-		} else if strings.HasPrefix(p.nextToken.val, ";strategy") {
-			if len(p.nextToken.val) > 10 {
-				p.metadata.Strategy += p.nextToken.val[10:] + "\n"
-			}
-		}
+		p.readMetadata(p.nextToken.val)
 		p.currentLine.typ = lineComment
 		return parseComment
 	case tokText:
@@ -199,6 +191,36 @@ func parseLine(p *parser) parseStateFn {
 	default:
 		p.err = fmt.Errorf("line %d: unexpected token: '%s' type %d", p.line, p.nextToken, p.nextToken.typ)
 		return nil
+	}
+}
+
+// readMetadata takes the name, author and strategy from a comment line
+func (p *parser) readMetadata(comment string) {
+	if strings.HasPrefix(comment, ";name") {
+		p.metadata.Name = strings.TrimSpace(comment[5:])
+	} else if strings.HasPrefix(comment, ";author") {
+		p.metadata.Author = strings.TrimSpace(comment[7:])
+	} else if strings.HasPrefix(comment, ";strategy") {
+		if len(comment) > 10 {
+			p.metadata.Strategy += comment[10:] + "\n"
+		}
+	}
+}
+
+// skipToOp consumes the newlines and comments between a label and its
+// instruction. A comment line there is a line like any other: it is
+// recorded, so that metadata and assertions written after a label that
+// stands alone on its line are not lost.
+func (p *parser) skipToOp() {
+	newline := false
+	for p.nextToken.typ == tokNewline || p.nextToken.typ == tokComment {
+		if p.nextToken.typ == tokNewline {
+			newline = true
+		} else if newline {
+			p.readMetadata(p.nextToken.val)
+			p.lines = append(p.lines, sourceLine{line: p.line, typ: lineComment, comment: p.nextToken.val})
+		}
+		p.next()
 	}
 }
 
@@ -228,9 +250,8 @@ func parseComment(p *parser) parseStateFn {
 // newline / comments: consume
 // anyting else: nil
 func parseLabels(p *parser) parseStateFn {
-	// just consume newlines and comments for now
 	if p.nextToken.typ == tokNewline || p.nextToken.typ == tokComment {
-		p.next()
+		p.skipToOp()
 		return parseLabels
 	}
 
@@ -272,9 +293,8 @@ func parseColon(p *parser) parseStateFn {
 		p.next()
 	}
 
-	// just consume newlines and comments for now
 	if p.nextToken.typ == tokNewline || p.nextToken.typ == tokComment {
-		p.next()
+		p.skipToOp()
 		return parseColon
 	}
 
